@@ -134,7 +134,18 @@ pub fn gen_conv(rng: &mut Rng, rep: &mut Report) -> Conv {
                 rep.counters.class("Prepare -> on_prepare".into());
                 let ok = rng.chance(4, 5);
                 let s = if ok { Script::PrepOk { id, params: param_cols(np as usize), cols: vec![] } } else { Script::PrepErr(1064, b"bad".to_vec()) };
-                let e = cv.push(MCmd::Prepare(rand_text(rng)), Some(s));
+                // what the library answers itself it answers for COM_QUERY: the same texts sent for
+                // PREPARE are statements like any other and reach on_prepare verbatim
+                let ptext = match rng.below(6) {
+                    0 => {
+                        let mut t = if rng.bool() { b"SELECT @@".to_vec() } else { b"select @@".to_vec() };
+                        t.extend_from_slice(*rng.pick(&[&b"max_allowed_packet"[..], b"version_comment", b"x", b""]));
+                        t
+                    }
+                    1 => use_stmt(rng).0,
+                    _ => rand_text(rng),
+                };
+                let e = cv.push(MCmd::Prepare(ptext), Some(s));
                 if ok && matches!(e, Exp::Cb(_)) {
                     live.retain(|(i, _)| *i != id);
                     live.push((id, np));
